@@ -96,7 +96,7 @@ fn generate(rng: &mut Rng) -> C14Sc {
         let peer = format!("192.0.2.{}:{}", 10 + i, 40000 + i);
         let effective = if proxy.is_some() { format!("198.51.100.{}:{}", 20 + i, 50000 + i) } else { peer.clone() };
         let role = match rng.below(if use_start { 9 } else { 10 }) {
-            0 if rng.chance(1, 4) => Role::HighBitLen { high: *rng.pick(&[1i32 << 21, 1 << 28, 1 << 30]) },
+            0 if rng.chance(1, 4) => Role::HighBitLen { high: *rng.pick(&[1i32 << 21, 1 << 28, 1 << 30, i32::MIN]) },
             // (254, 382, 510: lengths whose prefix starts with the byte 0xFE, the pre-1.7 "legacy ping")
             0 | 1 => Role::FrameLen { len: if max_frame >= 254 && rng.chance(1, 4) { *rng.pick(&[254, 382, 510]).min(&max_frame) } else if rng.chance(1, 2) { max_frame } else { max_frame + 1 } },
             2 | 3 => Role::Cookie {
@@ -203,7 +203,12 @@ fn generate(rng: &mut Rng) -> C14Sc {
         if proxy.is_some() {
             let src: std::net::SocketAddr = effective.parse().unwrap();
             let dst: std::net::SocketAddr = "192.0.2.200:25565".parse().unwrap();
-            let h = if rng.chance(1, 2) { v1_header(&src, &dst) } else { v2_header(&src, &dst, false) };
+            let mut h = if rng.chance(1, 2) { v1_header(&src, &dst) } else { v2_header(&src, &dst, false) };
+            // a valid header that announces no address (v2 LOCAL, v1 UNKNOWN - health checks of a load balancer): the
+            // connection counts under its TCP peer and is bounded like any other
+            if matches!(role, Role::Silent | Role::Trickle { .. } | Role::StopsAfter { .. }) && rng.chance(1, 3) {
+                h = if rng.chance(1, 2) { v2_header(&src, &dst, true) } else { b"PROXY UNKNOWN\r\n".to_vec() };
+            }
             let hl = h.len() as u64;
             // every cut the role made counts from the first protocol byte: move it behind the header
             for c in &mut spec.cuts {
@@ -311,7 +316,7 @@ pub fn check(sc: &C14Sc, out: &NetOutcome, rep: &mut RunReport) {
             }
             Role::HighBitLen { high } => {
                 if c.view.first("StatusResponse").is_some() || c.rx_total > 0 {
-                    rep.violate("frame_over_configured_max_is_refused", format!("a handshake frame that declares {high} bytes more than it has (configured maximum {max}) was served: packets {:?}", c.view.kinds()));
+                    rep.violate("frame_over_configured_max_is_refused", format!("a handshake frame that declares its length with {high} added (configured maximum {max}) was served: packets {:?}", c.view.kinds()));
                 }
                 // refused on its declared length, i.e. as soon as the prefix is there (not by misreading what follows)
                 let spec = &sc.net.clients[i].spec;
@@ -412,7 +417,7 @@ impl Check for C14 {
             let mutations_ok = match r {
                 Role::HighBitLen { high } => {
                     let real = crate::codec::handshake_body(c.spec.protocol, &c.spec.host, c.spec.port, 1).len() as i32 + 1;
-                    c.spec.intent == 1 && *high >= (1 << 21) && c.spec.mutations == vec![crate::client::Mutation { frame: 0, op: crate::client::MutOp::OuterLen { v: *high + real } }] && c.spec.cuts.iter().all(|k| k.at < plen_of(c) || k.at == plen_of(c) + crate::codec::varint(*high + real).len() as u64)
+                    c.spec.intent == 1 && (*high >= (1 << 21) || *high == i32::MIN) && c.spec.mutations == vec![crate::client::Mutation { frame: 0, op: crate::client::MutOp::OuterLen { v: *high + real } }] && c.spec.cuts.iter().all(|k| k.at < plen_of(c) || k.at == plen_of(c) + crate::codec::varint(*high + real).len() as u64)
                 }
                 _ => c.spec.mutations.is_empty(),
             };
@@ -424,7 +429,8 @@ impl Check for C14 {
                 let i = sc.net.clients.iter().position(|x| x.peer == c.peer).unwrap_or(0);
                 let src: std::net::SocketAddr = format!("198.51.100.{}:{}", 20 + i, 50000 + i).parse().unwrap();
                 let dst: std::net::SocketAddr = "192.0.2.200:25565".parse().unwrap();
-                if *p != v1_header(&src, &dst) && *p != v2_header(&src, &dst, false) {
+                let addressless = matches!(r, Role::Silent | Role::Trickle { .. } | Role::StopsAfter { .. }) && (*p == v2_header(&src, &dst, true) || p.as_slice() == b"PROXY UNKNOWN\r\n");
+                if *p != v1_header(&src, &dst) && *p != v2_header(&src, &dst, false) && !addressless {
                     return RunReport::default();
                 }
             }
